@@ -20,7 +20,7 @@ def configs(ctx):
         return [("NdArray_views.cfg", None), ("NdArray_writes.cfg", None), ("NdArray_chainw.cfg", None),
                 ("NdArray_sim.cfg", (20, 14))]
     return [("NdArray_views.cfg", None), ("NdArray_writes.cfg", None), ("NdArray_chainw.cfg", None),
-            ("NdArray_views_t.cfg", None), ("NdArray_writes_t.cfg", None), ("NdArray_sim.cfg", (240, 16))]
+            ("NdArray_views_t.cfg", None), ("NdArray_views3.cfg", None), ("NdArray_writes_t.cfg", None), ("NdArray_sim.cfg", (240, 16))]
 
 
 def run_traces(ctx, want_events, prop, ntraces, maxops, extra_args=()):
